@@ -168,6 +168,24 @@ def balance_layer(ctx, conn):
         run.add_position(p)
         if not run.is_empty() and 'Expenses' in a:
             expect.append(show_inv(run))
+    # a FROM filter next to a condition consulting the balance: only postings of entries passing FROM are scanned
+    years = sorted({r[0] for r in conn.execute('SELECT year FROM #postings').fetchall()})
+    for y in years:
+        q3 = "SELECT account, balance FROM year = %d WHERE NOT empty(balance) AND account ~ 'Assets|Expenses'" % y
+        rows3 = conn.execute(q3).fetchall()
+        run3 = inventory.Inventory()
+        expect3 = []
+        for yy, a, p in conn.execute('SELECT year, account, position FROM #postings').fetchall():
+            if yy != y:
+                continue
+            run3.add_position(p)
+            if not run3.is_empty() and ('Assets' in a or 'Expenses' in a):
+                expect3.append(show_inv(run3))
+        ctx.count('balance-from-and-where-oracle')
+        ctx.evaluations += 1
+        if [show_inv(r[1]) for r in rows3] != expect3:
+            ctx.record_violation('balance-with-from-filter', '%s: %r vs %r' % (q3, [show_inv(r[1]) for r in rows3][:3], expect3[:3]),
+                                 payload={'query': q3})
     ctx.count('balance-in-where-oracle')
     ctx.evaluations += 1
     if [show_inv(r[1]) for r in rows2] != expect:
